@@ -1,7 +1,6 @@
 """C13 — authorization codes are redirected only to the client's own https hosts."""
 import collections
 import json
-import time
 from . import common as c
 
 # client configurations: (name, AllowedRedirectDomains, AllowedRedirectURLRE)
@@ -172,14 +171,7 @@ def run(ctx):
         if i % 50 == 0:
             auth.append(("nosuchclient", u))
     hops += ["auth %s %s" % (nm, c.hexs(u)) for nm, u in auth]
-    for attempt in range(6):
-        impl, log, rc = c.run_harness(ctx, "cmd/keymasterd", "C13", hops, tag="h%d-" % attempt)
-        # the package's own test init() listens on fixed ports; a concurrent `go test` of the same
-        # package (another check running in parallel) makes that init panic before any test runs
-        if rc != 0 and not impl and ("dependency_monitor_test.go" in log or "address already in use" in log):
-            time.sleep(2 + 3 * attempt)
-            continue
-        break
+    impl, log, rc = c.run_harness(ctx, "cmd/keymasterd", "C13", hops)
     if rc != 0 or len(impl) != len(hops):
         ctx.broken.append("harness TestVerifC13 did not complete (exit %d, %d/%d lines)" % (rc, len(impl), len(hops)))
         return c.finish(ctx)
